@@ -16,6 +16,11 @@ Clauses (DESIGN.md section 6, C14):
  (7) history   repeatability / order independence: at every limit and ulp-neighbour state and a thinned lattice,
                each routine twice in a row and every ordered pair of routines as f, g, f must reproduce bit for
                bit the value the call has as the first call after a fresh import of the module
+ (8) primer    order independence against neighbouring arguments: at every state of the history lattice x the tier's
+               densities, every routine f after every routine g (g == f included) called at a primer state whose
+               temperature, other argument (p, d) or all arguments are offset by +-1 ulp, 1e-9, 1e-6, 1e-5, 1e-4,
+               1e-3 relative or lie far away; f must reproduce bit for bit its value after a fresh import, g its
+               own first value
 All tolerances are in ref/thermo.py (TOL: noise-limited quantities, BAND: signed boundary jumps) with the
 measurement behind them.
 """
@@ -37,7 +42,7 @@ RULE = ('chains: every (chain table, index read by a caller with non-zero multip
         'reduced variables of the viscosity correlation); boundaries: lattices along 350 degC, b23, the saturation line; classifier: (T lattice + ulp '
         'neighbours of 0.01, 350, tcritical, 590, 800) x (p lattice + ulp neighbours of 0, 100 MPa, sat(T), '
         'b23p(T)); history: at each of those limit states and a thinned lattice, 9 routines x (twice in a row + every '
-        'ordered pair as f, g, f) against the value after a fresh import.  One evaluation = one oracle decision on one state; distinct = distinct (clause, state); '
+        'ordered pair as f, g, f) against the value after a fresh import; primer: at each of those states x the tier\'s densities, for each of 39 primer states s2 of the state s1 (3 axes - T, the other argument, all - x 6 offsets 1 ulp, 1e-9..1e-3 relative x 2 directions, + the far state of the axis) and each routine g, from the module state of a fresh import: g(s2), then for each of the 9 routines f: f(s1), g(s2); f(s1) against its value after a fresh import, g(s2) against its first value.  One evaluation = one oracle decision on one state; distinct = distinct (clause, state); '
         'non-trivial = the state lies inside the range the clause quantifies over (outer neighbours of a limit are '
         'executed and counted but carry no oracle except in the classifier clause)')
 ASSUMPTIONS = [
@@ -57,11 +62,16 @@ BOUNDS = {
     'quick': {'T_step_degC': 2, 'pressures_per_isotherm': 60, 'density_step': 10, 'sat_line_step_degC': 0.01,
               'b23_step_degC': 0.01, 'reverse_lattice_points': 400, 'boundary_350_points': 100,
               'boundary_b23_step_degC': 1, 'maxwell_step_degC': 0.5, 'clausius_step_degC': 2,
-              'chains': 'complete', 'limits': 'complete', 'history_lattice': 'T every 50 degC x 4 pressures + all limit states'},
+              'chains': 'complete', 'limits': 'complete', 'history_lattice': 'T every 50 degC x 4 pressures + all limit states',
+              'primer_densities': [500.0], 'primer_axes': ['T', 'p and d', 'all'],
+              'primer_offsets': ['1ulp', 1e-9, 1e-6, 1e-5, 1e-4, 1e-3, 'far'], 'primer_routine_pairs': 'all ordered, 9 x 9'},
     'thorough': {'T_step_degC': 1, 'pressures_per_isotherm': 80, 'density_step': 5, 'sat_line_step_degC': 0.01,
                  'b23_step_degC': 0.01, 'reverse_lattice_points': 4000, 'boundary_350_points': 1000,
                  'boundary_b23_step_degC': 0.1, 'maxwell_step_degC': 0.25, 'clausius_step_degC': 0.5,
-                 'chains': 'complete', 'limits': 'complete', 'history_lattice': 'T every 10 degC x 4 pressures + all limit states'},
+                 'chains': 'complete', 'limits': 'complete', 'history_lattice': 'T every 10 degC x 4 pressures + all limit states',
+                 'primer_densities': [322.0, 500.0], 'primer_axes': ['T', 'p and d', 'all'],
+                 'primer_offsets': ['1ulp', 1e-9, 1e-6, 1e-5, 1e-4, 1e-3, 'far'],
+                 'primer_routine_pairs': 'all ordered, 9 x 9'},
 }
 TECHNIQUE = ('bounded exhaustive enumeration: exponent-tracking symbolic run of the multiplication chains (complete '
              'over the tables), lattice + ulp-neighbour enumeration of (T,p)/(T,rho) states on the real routines '
@@ -899,8 +909,178 @@ def chk_history(I, t, p, cls):
 
 
 # ----------------------------------------------------------------------------------------------------------
+# (8) order independence against NEIGHBOURING arguments (WAVE3 / seventh round): the value of a call at a
+# lattice state may not depend on an earlier call whose arguments were close to (or far from) its own
+# ----------------------------------------------------------------------------------------------------------
+
+# the ladder of relative offsets between the primer's arguments and the state's (None = one floating-point
+# neighbour); each rung in both directions.  An argument that is exactly 0 is offset absolutely.
+PRIMER_LADDER = (('1ulp', None), ('1e-9', 1.e-9), ('1e-6', 1.e-6), ('1e-5', 1.e-5), ('1e-4', 1.e-4),
+                 ('1e-3', 1.e-3))
+PRIMER_AXES = ('T', 'X', 'TX')      # which arguments are offset: the temperature, the other one (p and d), all
+PRIMER_D = {'quick': (HISTORY_D,), 'thorough': (R.DCRIT97, HISTORY_D)}
+
+
+def shifted(x, off, sign):
+    if off is None:
+        return R.up(x) if sign > 0 else R.down(x)
+    if x == 0.:
+        return sign * off
+    return x * (1. + sign * off)
+
+
+def far_state(t, p, d):
+    return (t + 400. if t <= 400. else t - 400., p * 100. if p < 1.e6 else p / 100.,
+            d + 300. if d < 600. else d - 300.)
+
+
+def primer_states(t, p, d):
+    """[(rung label, (t', p', d'))]: for every axis every rung of the ladder in both directions, then the far
+    state along that axis.  Rung label = axis ~ magnitude (the direction is not part of it)."""
+    out = []
+    ft, fp, fd = far_state(t, p, d)
+    for axis in PRIMER_AXES:
+        mt, mx = 'T' in axis, 'X' in axis
+        for name, off in PRIMER_LADDER:
+            for sign in (-1, 1):
+                out.append(('%s~%s' % (axis, name),
+                            (shifted(t, off, sign) if mt else t, shifted(p, off, sign) if mx else p,
+                             shifted(d, off, sign) if mx else d)))
+        out.append(('%s~far' % axis, (ft if mt else t, fp if mx else p, fd if mx else d)))
+    return out
+
+
+def variants_at(I, t, p, d):
+    v = [('cowat', lambda: I.cowat(t, p)), ('supst', lambda: I.supst(t, p)), ('region', lambda: I.region(t, p)),
+         ('sat', lambda: I.sat(t)), ('b23p', lambda: I.b23p(t)), ('super', lambda: I.super(d, t)),
+         ('visc', lambda: I.visc(d, t))]
+    if p > 0.:
+        v += [('tsat', lambda: I.tsat(p)), ('b23t', lambda: I.b23t(p))]
+    return v
+
+
+def _run_canon(th):
+    try:
+        return R.canon(th())
+    except core.CaseTimeout:
+        raise
+    except Exception as e:
+        return 'raises:' + type(e).__name__
+
+
+def primer_lattice(I, tier):
+    """[((t, p, d), class)]: the states of the history clause x the densities of the tier."""
+    return [((t, p, d), cls) for (t, p), cls in history_states(I, tier) for d in PRIMER_D[tier]]
+
+
+_IMMUTABLE = (int, float, complex, str, bytes, bool, type(None), type, type(math), type(len))
+
+
+def _deeply_immutable(v):
+    import numpy
+    if isinstance(v, numpy.generic) or isinstance(v, _IMMUTABLE):
+        return True
+    if isinstance(v, (tuple, frozenset)):
+        return all(_deeply_immutable(x) for x in v)
+    return False
+
+
+class Snapshot(object):
+    """What the module keeps between calls, as it is right after a (re-)import: every module global that is not
+    deeply immutable (one deep copy of them all, so that sharing between them is kept), and the defaults and
+    attributes of its functions.  restore() puts it back - much cheaper than re-executing the module, and used only
+    BETWEEN re-imports to separate the histories of a pass; it can only make the explored histories longer than
+    intended (never a false alarm: the oracle compares two values of one call at the same arguments)."""
+    def __init__(self, I):
+        import copy
+        import types
+        self.copy = copy
+        self.names = set(vars(I))
+        self.mutable = dict((k, v) for k, v in vars(I).items()
+                            if not k.startswith('__') and not isinstance(v, types.FunctionType)
+                            and not _deeply_immutable(v))
+        self.keep = copy.deepcopy(self.mutable)
+        self.funcs = [(f, copy.deepcopy(f.__defaults__), copy.deepcopy(f.__kwdefaults__), dict(f.__dict__))
+                      for f in vars(I).values() if isinstance(f, types.FunctionType)]
+
+    def restore(self, I):
+        d = vars(I)
+        for k in [k for k in d if k not in self.names]:
+            del d[k]
+        d.update(self.copy.deepcopy(self.keep))
+        for f, dflt, kw, attrs in self.funcs:
+            if dflt is not None:
+                f.__defaults__ = self.copy.deepcopy(dflt)
+            if kw is not None:
+                f.__kwdefaults__ = self.copy.deepcopy(kw)
+            if f.__dict__ or attrs:
+                f.__dict__.clear()
+                f.__dict__.update(self.copy.deepcopy(attrs))
+
+
+def chk_primer(I, t, p, d, cls):
+    """Isolated value of every routine at the state = its value as the first call after a fresh import.  Then for
+    every primer state s' and every routine g, from the state of the module right after a fresh import (restored):
+    g(s'), then for every routine f (g included): f(s), g(s').  Every f(s) must reproduce its isolated value bit for
+    bit, every g(s') the first g(s') (repeatability - whichever of two different results of one call is wrong, one is).
+    Returns (viols, evaluations, keys, number of primer states)."""
+    V = variants_at(I, t, p, d)
+    iso = {}
+    for name, th in V:
+        fresh_library()
+        iso[name] = _run_canon(th)
+    bad, rep = {}, {}
+    n = 0
+    keys = []
+    prim = primer_states(t, p, d)
+    fresh_library()
+    snap = Snapshot(I)
+    for label, s2 in prim:
+        V2 = variants_at(I, *s2)
+        for gname, gth in V2:
+            snap.restore(I)
+            f0 = _run_canon(gth)
+            n += 1
+            for fname, fth in V:
+                r = _run_canon(fth)
+                r2 = _run_canon(gth)
+                n += 2
+                keys.append(('primer', t, p, d, label, s2, gname, fname))
+                if r != iso[fname] and fname not in bad:
+                    bad[fname] = (gname, label, s2, r)
+                if r2 != f0 and gname not in rep:
+                    rep[gname] = (fname, label, s2, f0, r2)
+    viols = []
+    byname = dict(V)
+    for fname in sorted(bad):
+        gname, label, s2, got = bad[fname]
+        # attribution: does the single primer call reproduce it from a fresh import?
+        fresh_library()
+        _run_canon(dict(variants_at(I, *s2))[gname])
+        g2 = _run_canon(byname[fname])
+        if g2 != iso[fname]:
+            after, got = '%s@%s' % (gname, label), g2
+        else:
+            after = 'longer-history(last=%s@%s)' % (gname, label)
+        viols.append(('C14|%s|result-depends-on-earlier-calls|after=%s|%s' % (fname, after, cls),
+                      'at (t, p, d) = (%r, %r, %r): %s gives %s as the first call after a fresh import but %s when '
+                      'called after %s at (t, p, d) = %r (hex floats; the routines are pure functions)'
+                      % (t, p, d, fname, iso[fname], got, gname, s2)))
+    for gname in sorted(rep):
+        fname, label, s2, f0, got = rep[gname]
+        viols.append(('C14|%s|not-repeatable|between=%s@%s|%s' % (gname, fname, label, cls),
+                      '%s at (t, p, d) = %r gave %s and later, around a call of %s at (%r, %r, %r), %s in the same '
+                      'process' % (gname, s2, f0, fname, t, p, d, got)))
+    fresh_library()
+    return viols, n, keys, len(prim)
+
+
+# ----------------------------------------------------------------------------------------------------------
 # units
 # ----------------------------------------------------------------------------------------------------------
+
+PRIMER_CHUNK = {'quick': 6, 'thorough': 8}
+
 
 def t_chunks(ts, n):
     return core.chunks(ts, n)
@@ -937,6 +1117,10 @@ def units(tier):
     step = 12 if tier == 'quick' else 40
     for a in range(0, n, step):
         us.append(('history', a, min(n, a + step)))
+    n = len(primer_lattice(lib(), tier))
+    step = PRIMER_CHUNK[tier]
+    for a in range(0, n, step):
+        us.append(('primer', a, min(n, a + step)))
     return us
 
 
@@ -1076,6 +1260,17 @@ def _explore(I, unit, tier, rec, W):
             for sig, what in v:
                 rec.violation(sig, what, {'clause': 'history', 't': t, 'p': p, 'cls': cls})
         rec.sample({'clause': 'history', 'states': len(sts), 'first': sts[0][0], 'calls_per_state': n})
+    elif kind == 'primer':
+        sts = primer_lattice(I, tier)[unit[1]:unit[2]]
+        for (t, p, d), cls in sts:
+            v, n, keys, nprim = chk_primer(I, t, p, d, cls)
+            rec.bulk(n, keys, outcome='primer-' + ('ok' if not v else 'differs'))
+            rec.count('primer_lattice_states')
+            rec.count('primer_states', nprim)
+            for sig, what in v:
+                rec.violation(sig, what, {'clause': 'primer', 't': t, 'p': p, 'd': d, 'cls': cls})
+        rec.sample({'clause': 'primer', 'states': len(sts), 'first': sts[0][0],
+                    'primers_of_first': [list(x) for x in primer_states(*sts[0][0])[:4]]})
     elif kind in ('class', 'class-limits'):
         lim = limit_ts()
         if kind == 'class':
@@ -1144,6 +1339,8 @@ def replay(case):
         return chk_region(I, case['t'], case['p'], case['tcls'], case['pcls'])[0]
     if c == 'history':
         return chk_history(I, case['t'], case['p'], case['cls'])[0]
+    if c == 'primer':
+        return chk_primer(I, case['t'], case['p'], case['d'], case['cls'])[0]
     if c == 'need':
         return chk_need(I, case['site'], case['x']) if case.get('x') is not None else []
     raise core.HarnessError('unknown clause %r' % c)
